@@ -342,10 +342,14 @@ def check_case(case):
     # ---- refusals
     obs_ids = sorted(int(p_.plate_id) for p_ in screen_a.plates if bool(np.all(p_.observation_mask)))
     un_ids = sorted(int(p_.plate_id) for p_ in screen_a.plates if not bool(np.any(p_.observation_mask)))
-    for label, mutate in (("masked", None), ("masked_view_combine", "combine"), ("masked_view_concat", "concat"), ("masked_view_subset", "subset"), ("negative", -0.2), ("nan", float("nan"))):
+    for label, mutate in (("masked", None), ("masked_view_combine", "combine"), ("masked_view_concat", "concat"), ("masked_view_subset", "subset"), ("only_masked_rows", "unobserved"), ("only_masked_plate", "plate"), ("negative", -0.2), ("nan", float("nan"))):
         m2 = cls(experiment_space=ExperimentSpace.from_screen(screen_a), n_embedding_dimensions=case["D"])
         if mutate is None:
             data = screen_a  # still contains masked rows
+        elif mutate == "unobserved":
+            data = screen_a.subset_unobserved()  # nothing but masked rows
+        elif mutate == "plate":
+            data = screen_a.get_plate(un_ids[case["seed"] % len(un_ids)])  # one masked plate
         elif mutate in ("combine", "concat", "subset"):
             # views that hold an observed plate AND a masked plate (in either order of construction)
             from batchie.data import ScreenSubset
